@@ -334,6 +334,105 @@ async fn huge_delay_cell(set: Arc<CertSet>, kind: String, step: String) -> Resul
     }
 }
 
+/// Two streams of ONE client (they share its connection) go through an outage together: both
+/// must re-register, the re-registrations must come to rest, and traffic must flow again.
+async fn shared_client_cell(set: Arc<CertSet>, outages: usize) -> Result<String, Fail> {
+    let class = "two-streams-one-client".to_string();
+    let setup = |what: &str, e: String| fail("setup", what, format!("{what}: {e}"));
+    let mut fake = FakeServer::start(&set).map_err(|e| setup("fake server", e.to_string()))?;
+    let strategy = BackoffStrategy::constant().with_max_attempts(4).with_step(Duration::from_millis(20));
+    let client = net::client_ka(fake.addr, &set.ca, &set.client, strategy, 5_000).await.map_err(|e| setup("client connect", e.to_string()))?;
+    let topic = "/c12ns/sharedclient";
+    let sb = client.subscriber(topic).with_decoder(StringCodec);
+    let task = tokio::spawn(async move { sb.open().await });
+    let (mut sub_srv, _o1, mut sub) = first_registration!(fake, task, &class);
+    let pb = client.publisher(topic).with_encoder(StringCodec);
+    let task = tokio::spawn(async move { pb.open().await });
+    let (mut pub_srv, _o2, mut publ) = first_registration!(fake, task, &class);
+    // the subscriber is polled all the time by a task of its own; what it yields comes back here
+    let (tx, mut rx) = tokio::sync::mpsc::unbounded_channel::<String>();
+    let reader = tokio::spawn(async move {
+        while let Some(r) = sub.next().await {
+            if tx.send(match r { Ok(s) => s, Err(e) => format!("ERR {e}") }).is_err() {
+                break;
+            }
+        }
+    });
+    for outage in 1..=outages {
+        fake.cut();
+        // the publisher keeps publishing (that is how it notices), the fake server answers every
+        // re-registration with Ok; both streams must be back on one connection and stay there
+        let t0 = std::time::Instant::now();
+        let mut registrations = 0usize;
+        let mut last = std::time::Instant::now();
+        let mut have_sub = false;
+        let mut have_pub = false;
+        loop {
+            let _ = tokio::time::timeout(Duration::from_millis(200), publ.send("during".to_string())).await;
+            while let Some(mut inc) = fake.next_incoming(Duration::from_millis(50)).await {
+                if fake.is_stale(&inc) {
+                    continue;
+                }
+                registrations += 1;
+                last = std::time::Instant::now();
+                let _ = inc.stream.send(Frame::Ok).await;
+                match inc.first {
+                    Frame::RegisterSubscriber(_) => {
+                        sub_srv = inc;
+                        have_sub = true;
+                    }
+                    _ => {
+                        pub_srv = inc;
+                        have_pub = true;
+                    }
+                }
+            }
+            if have_sub && have_pub && last.elapsed() > Duration::from_millis(1500) {
+                break;
+            }
+            if t0.elapsed() > Duration::from_secs(20) {
+                reader.abort();
+                fake.shutdown();
+                return Err(fail("not-working-after-recovery", &class, format!("outage {outage}: a subscriber and a publisher of one client (one shared connection) lost it; within 20 s the fake server answered {registrations} re-registrations with Ok and they never came to rest (subscriber back: {have_sub}, publisher back: {have_pub})")));
+            }
+        }
+        // traffic after the recovery: what is published reaches the server, what is pushed is yielded
+        while rx.try_recv().is_ok() {}
+        let marker = format!("after-{outage}");
+        publ.send(marker.clone()).await.map_err(|e| fail("not-working-after-recovery", &class, format!("outage {outage}: publishing after the recovery failed: {e}")))?;
+        let mut arrived = false;
+        let t1 = std::time::Instant::now();
+        while t1.elapsed() < Duration::from_secs(10) {
+            match net::next_frame(&mut pub_srv.stream, Duration::from_millis(500)).await {
+                Ok(Some(f)) if body_of(&f) == marker => {
+                    arrived = true;
+                    break;
+                }
+                Ok(Some(_)) => {}
+                Ok(None) => break,
+                Err(_) => {}
+            }
+        }
+        if !arrived {
+            reader.abort();
+            fake.shutdown();
+            return Err(fail("not-working-after-recovery", &class, format!("outage {outage}: both streams of the client had re-registered ({registrations} registrations answered Ok); an item published afterwards never reached the server")));
+        }
+        sub_srv.stream.send(msg(&format!("push-{outage}"))).await.map_err(|e| setup("push", e.to_string()))?;
+        match tokio::time::timeout(Duration::from_secs(10), rx.recv()).await {
+            Ok(Some(s)) if s == format!("push-{outage}") => {}
+            other => {
+                reader.abort();
+                fake.shutdown();
+                return Err(fail("not-working-after-recovery", &class, format!("outage {outage}: both streams of the client had re-registered; an item pushed to the subscriber afterwards was not yielded: {other:?}")));
+            }
+        }
+    }
+    reader.abort();
+    fake.shutdown();
+    Ok("both-streams-recovered".into())
+}
+
 /// shared tail of an outage: interpret what the fake server saw
 fn judge(served: &Served, p: &Params, j: usize, class: &str) -> Result<(), Fail> {
     let fails = p.fails[j - 1];
@@ -914,6 +1013,9 @@ fn cells(tier: &str) -> Vec<Value> {
             id += 1;
         }
     }
+    // two streams of one client share its connection: one outage (thorough: three in a row)
+    v.push(json!({"cell": id, "kind": "two-streams-one-client", "family": "shared-client", "items_before": 0, "outages": if thorough { 3 } else { 1 }, "failing_attempts_per_outage": [0], "max_attempts": 4}));
+    id += 1;
     // back-off delays that saturate: waiting is fine, panicking is not
     for kind in ["subscriber", "publisher"] {
         for step in ["u64-max-seconds", "duration-max", "exponential-saturating"] {
@@ -963,6 +1065,13 @@ pub async fn run(tier: &str, replaying: bool) -> ! {
             // in a task of its own: a panic inside the client library is a verdict about the cell,
             // not the end of the engine
             let kind = p.kind.clone();
+            if c["family"].as_str() == Some("shared-client") {
+                let r = match tokio::spawn(shared_client_cell(set, c["outages"].as_u64().unwrap() as usize)).await {
+                    Ok(r) => r,
+                    Err(e) => Err(fail("client-panicked", "two-streams-one-client", format!("the cell's task ended abnormally: {e}"))),
+                };
+                return (true, r);
+            }
             if c["family"].as_str() == Some("huge-delay") {
                 let r = match tokio::spawn(huge_delay_cell(set, kind.clone(), c["step"].as_str().unwrap().to_string())).await {
                     Ok(r) => r,
@@ -985,7 +1094,7 @@ pub async fn run(tier: &str, replaying: bool) -> ! {
     finish(
         rep,
         outs,
-        "every cell of: stream kind {publisher, subscriber, requestor, replier} x items exchanged before the first cut {0,1(,2)} x number of successive outages 1..=max+2 x failing re-registration attempts per outage 0..=max x backoff {constant, linear, exponential(2)} (all three in thorough, rotating in quick) with step 5 ms x max attempts {1,2(,3)}, plus (thorough) every non-uniform vector of survivable failure counts over up to three outages, plus cells whose failing attempts fail because the fake server cuts the connection again while the client waits for the answer to its re-registration (instead of answering with an error frame), plus clients built with backoff_strategy() before keep_alive() (the configured budget must still apply), plus a silent outage of 6 s (the first dial of the recovery stays unanswered for more than 5 s; any number of attempts within the budget is accepted, the stream must work again), plus every protocol error code (0-8, 255) as the answer to the first re-registration: only replier-already-bound is retried, every other code is reported at once, plus a budget of 60 attempts with exponential(10) delays capped at one step and 39..59 (thorough also 60) failing attempts in an outage, plus back-off delays that saturate (step u64::MAX s, Duration::MAX, exponential overflowing): after an outage the subscriber / publisher may wait and must not panic (an early retry is noted, not judged: pacing is C13's), plus the requestor flow driven through a clone of the opened handle (same budget expected), plus outages that start with a reset of the served stream (the client sees a stream-level error before the connection-level one), plus graceful outages (the fake server finishes the served stream cleanly, so the client sees the end of the stream rather than a read error, and then closes the connection), plus repliers whose re-registration is acknowledged and then refused with replier-already-bound and closed (what the real server does while the old binding exists; every acknowledged attempt ends one outage, so the replier must keep re-registering until served), plus publishers with 10 KiB fed but not flushed at the moment of the cut (the loss then surfaces in poll_ready), plus one unrecoverable-answer cell per (kind, max, items), plus silent outages (a UDP relay drops every packet for 2.6 s against a 1.5 s idle time-out, so the connection ends by time-out instead of by a close frame) per (kind, max), plus two clones of one requestor recovering one after the other with a request of the first in flight. Oracle per outage: the re-registration frame equals the original; the fake server counts exactly fails+1 attempts (max when all fail, 1 when unrecoverable) regardless of earlier outages; with fails<max the stream works again (published item reaches the fake server / pushed item is yielded / retried and fresh requests are answered / a request sent to the replier is replied to); with fails==max too-many-retries is reported on the operation that hit the outage or on the next one; an unrecoverable answer is reported immediately. non-trivial = at least two outages or at least one failing attempt",
+        "every cell of: stream kind {publisher, subscriber, requestor, replier} x items exchanged before the first cut {0,1(,2)} x number of successive outages 1..=max+2 x failing re-registration attempts per outage 0..=max x backoff {constant, linear, exponential(2)} (all three in thorough, rotating in quick) with step 5 ms x max attempts {1,2(,3)}, plus (thorough) every non-uniform vector of survivable failure counts over up to three outages, plus cells whose failing attempts fail because the fake server cuts the connection again while the client waits for the answer to its re-registration (instead of answering with an error frame), plus clients built with backoff_strategy() before keep_alive() (the configured budget must still apply), plus a silent outage of 6 s (the first dial of the recovery stays unanswered for more than 5 s; any number of attempts within the budget is accepted, the stream must work again), plus every protocol error code (0-8, 255) as the answer to the first re-registration: only replier-already-bound is retried, every other code is reported at once, plus a budget of 60 attempts with exponential(10) delays capped at one step and 39..59 (thorough also 60) failing attempts in an outage, plus a subscriber and a publisher of ONE client (one shared connection) going through an outage together (both must re-register, the re-registrations must come to rest within 20 s, traffic must flow again), plus back-off delays that saturate (step u64::MAX s, Duration::MAX, exponential overflowing): after an outage the subscriber / publisher may wait and must not panic (an early retry is noted, not judged: pacing is C13's), plus the requestor flow driven through a clone of the opened handle (same budget expected), plus outages that start with a reset of the served stream (the client sees a stream-level error before the connection-level one), plus graceful outages (the fake server finishes the served stream cleanly, so the client sees the end of the stream rather than a read error, and then closes the connection), plus repliers whose re-registration is acknowledged and then refused with replier-already-bound and closed (what the real server does while the old binding exists; every acknowledged attempt ends one outage, so the replier must keep re-registering until served), plus publishers with 10 KiB fed but not flushed at the moment of the cut (the loss then surfaces in poll_ready), plus one unrecoverable-answer cell per (kind, max, items), plus silent outages (a UDP relay drops every packet for 2.6 s against a 1.5 s idle time-out, so the connection ends by time-out instead of by a close frame) per (kind, max), plus two clones of one requestor recovering one after the other with a request of the first in flight. Oracle per outage: the re-registration frame equals the original; the fake server counts exactly fails+1 attempts (max when all fail, 1 when unrecoverable) regardless of earlier outages; with fails<max the stream works again (published item reaches the fake server / pushed item is yielded / retried and fresh requests are answered / a request sent to the replier is replied to); with fails==max too-many-retries is reported on the operation that hit the outage or on the next one; an unrecoverable answer is reported immediately. non-trivial = at least two outages or at least one failing attempt",
         "fault sequences are enumerated exhaustively; scheduling inside tokio/quinn is not controlled",
         json!({"step_ms": STEP_MS, "attempts_sooner_than_the_configured_delay_noted_not_judged": EARLY_ATTEMPTS.load(std::sync::atomic::Ordering::Relaxed)}),
         replaying,
